@@ -79,7 +79,8 @@ impl Vm {
     let arg_count = self.read_short() as usize;
     let mut map = self.manage_obj(Map::with_capacity(arg_count));
 
-    for i in 0..arg_count {
+    // insert in source order so that of two entries with the same key the later one stays
+    for i in (0..arg_count).rev() {
       let key = self.fiber.peek(i * 2 + 1);
       let value = self.fiber.peek(i * 2);
 
